@@ -84,6 +84,14 @@ impl<'a> SpecGen<'a> {
         Some(r(&n))
     }
 
+    /// a component that describes objects: the only satisfiable `$ref` member of an allOf that also has properties
+    fn object_ref(&mut self) -> Option<Value> {
+        let t: Vec<String> = self.names.iter().zip(self.kinds.iter()).filter(|(_, k)| matches!(**k, "object" | "allof")).map(|(n, _)| n.clone()).collect();
+        if t.is_empty() { return None; }
+        let n: String = self.rng.pick(&t[..]).clone();
+        Some(r(&n))
+    }
+
     fn solid_ref(&mut self) -> Option<Value> {
         let t = self.solid_targets();
         if t.is_empty() { return None; }
@@ -179,8 +187,8 @@ impl<'a> SpecGen<'a> {
             16 | 17 => {
                 self.feat("allof_component");
                 let mut members = vec![];
-                if let Some(t) = self.solid_ref() { members.push(t); }
-                if self.rng.chance(1, 2) { if let Some(t) = self.solid_ref() { if !members.contains(&t) { members.push(t); } } }
+                if let Some(t) = self.object_ref() { members.push(t); }
+                if self.rng.chance(1, 2) { if let Some(t) = self.object_ref() { if !members.contains(&t) { members.push(t); } } }
                 let mut o = self.object(1, false);
                 o.as_object_mut().unwrap().remove("type");
                 members.push(o);
@@ -246,12 +254,17 @@ impl<'a> SpecGen<'a> {
         for p in path_params { if !shared.contains(p) { params.push(self.param(p, "path", true)); } }
         let n_extra = self.rng.below(5);
         let names = self.prop_names(n_extra);
+        let mut last_ref: Option<Value> = None;
         for n in names {
             // `body` is the name libninja gives to an array / free-form request body
             if path_params.contains(&n) || n == "body" { continue; }
             let loc = ["query", "query", "header", "cookie"][self.rng.below(4)];
             let required = self.rng.chance(1, 3);
-            params.push(self.param(&n, loc, required));
+            let mut p = self.param(&n, loc, required);
+            // the same component is often the type of several inputs of one operation
+            if let Some(r) = &last_ref { if self.rng.chance(1, 4) { p["schema"] = r.clone(); self.feat("two_inputs_of_one_component"); } }
+            if p["schema"].get("$ref").is_some() { last_ref = Some(p["schema"].clone()); }
+            params.push(p);
         }
         if !params.is_empty() { op.insert("parameters".into(), Value::Array(params)); }
         if matches!(verb, "post" | "put" | "patch") || self.rng.chance(1, 10) {
@@ -260,7 +273,7 @@ impl<'a> SpecGen<'a> {
                 2 | 3 => self.object(1, false),
                 4 => { let it = self.schema(1); json!({"type": "array", "items": it}) }
                 5 => json!({"type": "object"}),
-                6 => { let mut ms = vec![]; if let Some(t) = self.solid_ref() { ms.push(t); } let mut o = self.object(1, false); o.as_object_mut().unwrap().remove("type"); ms.push(o); self.feat("allof_body"); json!({"allOf": ms}) }
+                6 => { let mut ms = vec![]; if let Some(t) = self.object_ref() { ms.push(t); } let mut o = self.object(1, false); o.as_object_mut().unwrap().remove("type"); ms.push(o); self.feat("allof_body"); json!({"allOf": ms}) }
                 _ => self.object(1, false),
             };
             // parameters and body members are separate scopes in OpenAPI: a body member may be named like a
